@@ -1,6 +1,7 @@
 package main
 
 import (
+	"errors"
 	"fmt"
 	"os"
 	"path/filepath"
@@ -16,6 +17,7 @@ type interferingHasher struct {
 	inner store.Hasher
 	fn    func()
 	fired bool
+	fail  bool // Generate fails (a parameter set that loads but cannot hash: scrypt cost 0, r*p too large)
 }
 
 func (h *interferingHasher) GetFormatID() string             { return h.inner.GetFormatID() }
@@ -25,6 +27,9 @@ func (h *interferingHasher) Generate(p string) (string, error) {
 	if !h.fired {
 		h.fired = true
 		h.fn()
+	}
+	if h.fail {
+		return "", errors.New("scrypt: parameters are too large")
 	}
 	return h.inner.Generate(p)
 }
@@ -63,7 +68,7 @@ func suiteC15i(c *ctx) {
 		other := cfg.dir(base) // the second process: its own Dir object, plain hashers
 		d := cfg.dir(base)
 		scen := []string{"add-vs-add", "update-vs-remove", "update-vs-setadmin", "add-over-dangling-symlink",
-			"update-vs-update", "add-admin-over-dangling-user-symlink"}[(i+c.shard)%6]
+			"update-vs-update", "add-admin-over-dangling-user-symlink", "add-generate-fails", "update-generate-fails"}[(i+c.shard)%8]
 		var pre []sent
 		ih := &interferingHasher{inner: d.Params[d.Default]}
 		d.Params[d.Default] = ih
@@ -87,6 +92,18 @@ func suiteC15i(c *ctx) {
 		case "update-vs-update":
 			expectFail = false
 			ih.fn = func() { other.UpdateUser(user, pw2); pre = snapshotL(base) }
+			err = d.UpdateUser(user, pw)
+		case "add-generate-fails":
+			// the hash cannot be computed: the add fails for a semantic reason and leaves nothing behind
+			user = "newuser"
+			ih.fail = true
+			ih.fn = func() {}
+			pre = snapshotL(base) // (before the call: whatever the operation did up to the failure counts)
+			err = d.AddUser(user, pw, adm)
+		case "update-generate-fails":
+			ih.fail = true
+			ih.fn = func() {}
+			pre = snapshotL(base)
 			err = d.UpdateUser(user, pw)
 		case "add-over-dangling-symlink":
 			user = "ghost"
